@@ -933,7 +933,11 @@ func (r *Run) makeSlice(fr *Frame, x *ssa.MakeSlice) Value {
 		big := r.ts.BOr(r.ts.Slt(lim, ct), r.ts.Slt(lim, lt))
 		if r.branchMonitor(big, "alloc") {
 			// huge or negative is also covered below; path for big sizes ends here
-			r.violation("alloc", fmt.Sprintf("make(%v) with attacker-controlled size above %d elements at %s", st, r.allocLimit, r.curPos()))
+			msg := fmt.Sprintf("make(%v) with attacker-controlled size above %d elements at %s", st, r.allocLimit, r.curPos())
+			// prefer a witness that allocates a lot (so that the native replay shows it), else any witness
+			if !r.violationCondW("alloc", msg, r.ts.Slt(r.ts.Const(64, 1<<26), ct), 1) {
+				r.violation("alloc", msg)
+			}
 			panic(&pathEnd{kind: "cut-assume", msg: "allocation beyond monitor limit"})
 		}
 	}
